@@ -5972,7 +5972,8 @@ def fill_rests(score_data: ScoreLike, measurewise=True) -> None:
     if isinstance(score_data, Score):
         partlist = score_data.parts
     else:
-        partlist = [score_data]
+        # a Part, a PartGroup or a list of these
+        partlist = list(iter_parts(score_data))
     for part in partlist:
         measures = part.measures
         if measurewise:
